@@ -38,6 +38,7 @@ bool readSingleByteLenValue(ReadStream& stream, Slice<const uint8_t>& out, Valid
 #include "slices/singleBEValueSize.inc"
 #include "slices/varLenValueSize_slice.inc"
 #include "slices/varLenValueSize_size.inc"
+#include "slices/readArrayOf.inc"
 #include "slices/readNetworkByte.inc"
 #include "slices/writeNetworkByte.inc"
 #include "slices/networkByteSize.inc"
